@@ -261,3 +261,34 @@ func vpH_SELF_strings_runes() {
 		vpObserve("flip", uint64(string(bs)[0]))
 	}
 }
+
+//vp:prop SELF
+func vpH_SELF_ifconv() {
+	a, b, c := vpU64("a"), vpU64("b"), vpU8("c")
+	x := uint64(0)
+	if a > 5 && b < 7 || c == 3 {
+		x++
+	}
+	if a%2 == 0 {
+		x += 10
+	} else {
+		x += 20
+	}
+	arr := [4]uint64{1, 2, 3, 4}
+	if c < 4 && arr[c] > 2 {
+		x += 100
+	}
+	m := a
+	if b > m {
+		m = b
+	}
+	var p *vpRect
+	if c == 9 {
+		p = &vpRect{w: a, h: 2}
+	}
+	if p != nil && p.w > 3 {
+		x += 1000
+	}
+	vpObserve("x", x)
+	vpObserve("max", m)
+}
